@@ -122,14 +122,33 @@ func runOneSelfTest(id, name, repoDir, seedsDir, exe, knownPath string) (res Sel
 	}
 	defer os.RemoveAll(tmp)
 	tree := filepath.Join(tmp, "tree")
-	if err := copyTree(repoDir, tree); err != nil {
-		res.Outcome = "skipped"
-		res.Detail = "copy failed: " + err.Error()
-		return
-	}
 	patch := filepath.Join(sd, "patch.diff")
 	if _, err := os.Stat(filepath.Join(sd, "patch.current.diff")); err == nil {
 		patch = filepath.Join(sd, "patch.current.diff") // the same change re-expressed against the tree after later fix: commits
+	}
+	// Only the files the change touches are copied; the child analyses the current tree
+	// with those files overlaid (no scratch copy of the whole tree, and the build cache
+	// of the untouched packages stays valid). A change that deletes a file cannot be
+	// expressed as an overlay and falls back to a full scratch copy.
+	touched, deletes := patchFiles(patch)
+	overlay := !deletes && len(touched) > 0
+	if overlay {
+		for _, rel := range touched {
+			src := filepath.Join(repoDir, rel)
+			b, err := os.ReadFile(src)
+			if err != nil {
+				continue // a file the change creates
+			}
+			dst := filepath.Join(tree, rel)
+			if err := os.MkdirAll(filepath.Dir(dst), 0o755); err == nil {
+				_ = os.WriteFile(dst, b, 0o644)
+			}
+		}
+		_ = os.MkdirAll(tree, 0o755)
+	} else if err := copyTree(repoDir, tree); err != nil {
+		res.Outcome = "skipped"
+		res.Detail = "copy failed: " + err.Error()
+		return
 	}
 	apply := exec.Command("git", "apply", patch)
 	apply.Dir = tree
@@ -140,6 +159,9 @@ func runOneSelfTest(id, name, repoDir, seedsDir, exe, knownPath string) (res Sel
 	}
 	ev := filepath.Join(tmp, "ev")
 	cmd := exec.Command(exe, "-repo", tree, "-prop", id, "-tier", "quick", "-out", ev, "-known", knownPath)
+	if overlay {
+		cmd = exec.Command(exe, "-repo", repoDir, "-overlay", tree, "-prop", id, "-tier", "quick", "-out", ev, "-known", knownPath)
+	}
 	cmd.Env = append(os.Environ(), "GOFLAGS=-mod=mod", "GOPROXY=off", "GOSUMDB=off", "GOTOOLCHAIN=local", "GOWORK=off")
 	out, _ := cmd.CombinedOutput()
 	code := 0
@@ -170,6 +192,33 @@ func runOneSelfTest(id, name, repoDir, seedsDir, exe, knownPath string) (res Sel
 		res.Detail = fmt.Sprintf("exit %d, no violation reported on the changed tree", code)
 	}
 	return
+}
+
+// patchFiles lists the paths a unified diff touches and whether it deletes any file.
+func patchFiles(patch string) (files []string, deletes bool) {
+	b, err := os.ReadFile(patch)
+	if err != nil {
+		return nil, false
+	}
+	seen := map[string]bool{}
+	for _, line := range strings.Split(string(b), "\n") {
+		for _, pfx := range []string{"--- a/", "+++ b/"} {
+			if strings.HasPrefix(line, pfx) {
+				p := strings.TrimSpace(strings.TrimPrefix(line, pfx))
+				if i := strings.IndexByte(p, '\t'); i >= 0 {
+					p = p[:i]
+				}
+				if p != "" && !seen[p] && !strings.Contains(p, "..") {
+					seen[p] = true
+					files = append(files, p)
+				}
+			}
+		}
+		if strings.HasPrefix(line, "+++ /dev/null") || strings.HasPrefix(line, "deleted file mode") || strings.HasPrefix(line, "rename from") {
+			deletes = true
+		}
+	}
+	return files, deletes
 }
 
 func lastLine(s string) string {
